@@ -194,6 +194,27 @@ var childTemplates = map[string][]byte{
 	"balret": {opSELFBALANCE, 0x60, 0x00, opMSTORE, 0x60, 0x20, 0x60, 0x00, opRETURN},
 }
 
+type abiTpl struct {
+	sel   []byte
+	words []*big.Int
+	size  int
+}
+
+func bigPow2(n uint) *big.Int { return new(big.Int).Lsh(big.NewInt(1), n) }
+
+// what contracts hand back on REVERT/RETURN: compiler-shaped Error(string)/Panic(uint256) data and broken variants of it
+var abiDataTemplates = []abiTpl{
+	{sel: []byte{0x08, 0xc3, 0x79, 0xa0}, words: []*big.Int{big.NewInt(32), big.NewInt(5), new(big.Int).Lsh(big.NewInt(0x68656c6c6f), 216)}, size: 100}, // Error("hello")
+	{sel: []byte{0x08, 0xc3, 0x79, 0xa0}, words: []*big.Int{big.NewInt(32), big.NewInt(255)}, size: 68},                                                 // length beyond the data
+	{sel: []byte{0x08, 0xc3, 0x79, 0xa0}, words: []*big.Int{big.NewInt(32), new(big.Int).Sub(bigPow2(256), big.NewInt(1))}, size: 68},                    // length 2^256-1
+	{sel: []byte{0x08, 0xc3, 0x79, 0xa0}, words: []*big.Int{bigPow2(255), big.NewInt(1)}, size: 100},                                                    // offset 2^255
+	{sel: []byte{0x08, 0xc3, 0x79, 0xa0}, words: nil, size: 4},                                                                                          // selector only
+	{sel: []byte{0x08, 0xc3, 0x79, 0xa0}, words: []*big.Int{big.NewInt(32)}, size: 36},                                                                  // offset only
+	{sel: []byte{0x4e, 0x48, 0x7b, 0x71}, words: []*big.Int{big.NewInt(0x11)}, size: 36},                                                                // Panic(0x11)
+	{sel: []byte{0x08, 0xc3, 0x79, 0xa0}, words: []*big.Int{big.NewInt(32), big.NewInt(1 << 31), big.NewInt(7)}, size: 100},                              // 2 GiB string
+	{sel: []byte{0x08, 0xc3, 0x79, 0xa0}, words: []*big.Int{big.NewInt(64), big.NewInt(0), big.NewInt(40)}, size: 100},                                   // offset past the length word
+}
+
 func (a *easm) stmt(s *Stmt) {
 	skip := ""
 	if s.Cond >= 0 {
@@ -258,6 +279,19 @@ func (a *easm) stmt(s *Stmt) {
 		a.op(opSELFDESTRUCT)
 	case "revert":
 		a.push(0).push(0).op(opREVERT)
+	case "revertdata", "returndata":
+		// ABI-looking (honest and hostile) data: selector | offset word | length word | payload word
+		tpl := abiDataTemplates[s.N%len(abiDataTemplates)]
+		a.pushBytes(tpl.sel).push(224).op(0x1b /*SHL*/).push(0).op(opMSTORE)
+		for i, w := range tpl.words {
+			a.pushBig(w).push(uint64(4 + 32*i)).op(opMSTORE)
+		}
+		a.push(uint64(tpl.size)).push(0)
+		if s.K == "revertdata" {
+			a.op(opREVERT)
+		} else {
+			a.op(opRETURN)
+		}
 	case "return":
 		a.expr(s.E)
 		a.push(0).op(opMSTORE).push(32).push(0).op(opRETURN)
